@@ -17,7 +17,7 @@
 
     The coefficient algebra lives in a Section over ANY carrier [F] with field-like operations ([Ops F]); it is run
     with F = Q(i) ([cx_ops QO]) and reasoned about with F = C ([cx_ops RO]) -- or any field at all. *)
-From Coq Require Import ZArith List Bool.
+From Coq Require Import ZArith QArith List Bool.
 From HV Require Import Common.Generic.
 Import ListNotations.
 
@@ -260,3 +260,21 @@ Fixpoint args_close (tol floor : T) (a b : list (cx T * cx T)) : bool :=
   | _, _ => false
   end.
 End Cmp.
+
+(* ------------------------------------------------------------------------------------------ *)
+(** EVALUATOR arithmetic for the correspondence check.  Exact rational evaluation of the recursions explodes
+    (every division multiplies denominators; depth ~25 for 4 layers), so the generic definitions above are run
+    over [QF]: rationals rounded (toward -oo on the mantissa) to [prec] significant bits after every operation --
+    a binary floating-point arithmetic with 2^-200 relative error per operation, inside Coq, no Axiom.
+    The exact instance [QO] is still used where the comparison is exact (LayeredSphere.r). *)
+Definition prec : Z := 200.
+Definition qround (q : Q) : Q :=
+  let n := Qnum q in let d := Zpos (Qden q) in
+  if (n =? 0)%Z then 0%Q else
+  let e := (Z.log2 (Z.abs n) - Z.log2 d)%Z in
+  let s := (prec - e)%Z in
+  if (0 <=? s)%Z then Qmake ((n * 2 ^ s) / d) (Z.to_pos (2 ^ s))
+  else Qmake ((n / (d * 2 ^ (- s))) * 2 ^ (- s)) 1.
+Definition QF : Ops Q :=
+  mkOps Q 0%Q 1%Q (fun a b => qround (a + b)) (fun a b => qround (a * b)) (fun a b => qround (a - b)) Qopp
+        (fun a => qround (/ a)) Qltb Qle_bool Qeq_bool (fun z => inject_Z z).
